@@ -85,6 +85,19 @@ to other blocks (preferably ones with an event addressed back to the FSM). Model
 demand a refusal for everything that comes back. Quick tier on the seeded tree:
 not-refused/exit-action (975 reports), model/verdict (134); 15 000 runs with other seeds: 231/195.
 
+Seeded change C11-s7 (the simulator swallows its own cancellation while it waits for
+init_async tasks: a refusal during the asynchronous initialisation stops the simulation only
+after the remaining init tasks / time-outs) was missed while every event came after the
+start-up. Now 20 % of the runs have 2-3 InitAsync blocks with slow scripted init coroutines
+(different durations, some timing out) and deliver their first external event(s) while the
+simulator waits for them (the destinations are then initialised early by the external event;
+the model does the same; no follow-up events in that phase, they follow after the start-up).
+And after EVERY legitimate refusal (start-up, async-init window, normal operation, Repeat
+tick) the simulation task must have ended within STOP_BOUND = 0.25 virtual seconds
+(signature refusal-did-not-stop/still-running). An unknown event type or missing parameter
+met by an initialisation routine that runs early because of a pending event is a fatal
+initialisation error (verdict 'abort'), as for any other initialisation error.
+
 Corrections made while building (false alarms of the harness, not of edzed):
   - a mutant with unbounded event recursion ended in Python's RecursionError at a process
     dependent depth (non-deterministic digests): nesting watchdog at 40 open deliveries.
@@ -114,7 +127,9 @@ RULE = ("one run = 2-6 blocks (forwarding probes, Input, Counter, generated FSM 
         "OutputFunc with on_success/on_error) wired by a random directed event graph (dag / ring "
         "/ diamond / free incl. self-loops) with filters (veto, value dependent, edit) and "
         "EventCond (incl. None branches) on the edges, started, then driven by 1-4 external "
-        "events (valid, unknown type, missing parameter), each followed by a guard test event "
+        "events (valid, unknown type, missing parameter; in 20 % of the runs the first ones "
+        "arrive while the simulator waits for 2-3 slow init_async tasks), each followed by a "
+        "guard test event "
         "to every block; non-trivial = at least one external event caused a block-to-block "
         "delivery or a refusal; distinct = hash of (block kinds, per external event: verdict, "
         "kinds and outcome of the deliveries it caused), values removed")
@@ -126,6 +141,7 @@ REACH_EXPECTED = [
     'nested_param_abort', 'handler_error_abort', 'early_return', 'unchanged_no_event',
     'diamond', 'via_repeat', 'via_ofunc', 'followup_all_ok', 'second_event_after_failure',
     'repeat_tick_delivery', 'refused_tick',
+    'async_init_window_event', 'refused_in_async_init', 'stopped_promptly',
     'exit_action_sends', 'exit_action_intermediate_sends', 'cond_function_sends',
     'refused_from_exit_action', 'refused_from_intermediate_exit', 'refused_from_cond_function',
 ]
@@ -486,8 +502,16 @@ def gen(rng, tier, index=0):
     # let the Repeat blocks repeat (twice) after the external events: roots that are no event
     tick = any(b['kind'] == 'repeat' and b['count'] != 0 for b in circ['blocks']) \
         and rng.random() < 0.4
-    return {'knobs': knobs, 'blocks': circ['blocks'], 'shape': circ['shape'], 'ext': ext,
+    plan = {'knobs': knobs, 'blocks': circ['blocks'], 'shape': circ['shape'], 'ext': ext,
             'tick': tick}
+    if rng.random() < 0.2:
+        # the first external event(s) arrive while the simulator still waits for 2-3 blocks
+        # with a slow asynchronous initialisation (different durations, some time out)
+        durs = rng.sample([1.0, 1.5, 2.0, 3.5, 6.0], rng.choice([2, 2, 3]))
+        slow = [[d, rng.choice([d + 1.0, d + 1.0, 20.0, max(0.6, d - 0.5)])] for d in durs]
+        plan['ainit'] = {'slow': slow, 'at': rng.choice([0.05, 0.2, 0.45]),
+                         'n_ext': rng.randint(1, len(ext))}
+    return plan
 
 
 # --------------------------------------------------------------------------- real circuit
@@ -780,6 +804,7 @@ def adopt(model, real):
 
 
 REPEAT_INTERVAL = 3600.0
+STOP_BOUND = 0.25       # virtual seconds the clean-up after a fatal error may take
 SITES = {'early-init': 'its early initialisation by an event', 'handler': 'its handler',
          'exit-action': 'running an exit action, which must not cause events for its own FSM',
          'cond-function': 'running a condition function, which must not cause events for its '
@@ -820,6 +845,17 @@ def execute(plan, trace=False):
             raise PlanError(f"model: {err}") from None
         ctx = {'stack': [], 'actx': [], 'real': None}
         real = build(plan, ctx)
+        if plan.get('ainit'):
+            # blocks with a slow asynchronous initialisation keep the start-up open
+            async def slow(duration):
+                await asyncio.sleep(duration)
+                return 1
+            try:
+                for i, (dur, tmo) in enumerate(plan['ainit']['slow']):
+                    edzed.InitAsync(f"slow{i}", init_coro=[slow, float(dur)],
+                                    init_timeout=float(tmo))
+            except Exception as err:
+                raise PlanError(f"InitAsync: {err}") from None
         circuit = edzed.get_circuit()
         kinds = {name: spec['kind'] for name, (spec, _b) in real.items()}
 
@@ -960,7 +996,12 @@ def execute(plan, trace=False):
                     return False
             return True
 
-        info = {'stopped_by': None, 'nontrivial': False, 'failures_survived': 0}
+        info = {'stopped_by': None, 'nontrivial': False, 'failures_survived': 0, 'precise': True,
+                'window_stop': False}
+        ainit = plan.get('ainit')
+        nwin = 0
+        if ainit:
+            nwin = max(0, min(int(ainit.get('n_ext', 0)), len(plan['ext'])))
         shape = [kinds[n][0] for n in model.order]
 
         def followups(label):
@@ -990,9 +1031,105 @@ def execute(plan, trace=False):
                 run.fired('reach:followup_all_ok')
             return ok
 
-        async def main():
-            simtask = asyncio.create_task(circuit.run_forever())
+        async def do_ext(n, op, window):
+            """One external event: deliver, judge (a)(b), follow-ups (c). False = stop."""
+            label = f"{'init-' if window else ''}ext#{n} {op['blk']}.{op['ev']}"
+            if op['blk'] not in real or not isinstance(op['ev'], str) or not op['ev']:
+                raise PlanError('bad external event')
+            blk = real[op['blk']][1]
+            data = fsmlib.real_data(op.get('data', {}))
+            was_precise = info['precise'] and not model.imprecise
+            exp = model.external(op['blk'], op['ev'], op.get('data', {}))
             begin_root()
+            try:
+                ret = edzed.ExtEvent(blk, op['ev']).send(**data)
+                err = None
+            except Exception as exc:        # pylint: disable=broad-except
+                ret, err = None, exc
+            end_root(label)
+            alive = circuit.is_ready()
+            if err is None:
+                obs = 'ok'
+            elif is_recursion_error(err):
+                obs = 'recursion'
+            elif isinstance(err, edzed.EdzedUnknownEvent) and (alive or exp['verdict'] != 'abort'):
+                # (an unknown event type met by an initialisation routine is an initialisation
+                # error: the model says 'abort' then)
+                obs = 'unknown'
+            elif isinstance(err, TypeError) and alive:
+                obs = 'param'
+            else:
+                obs = 'abort'
+            run.log('ext', label, canon(op.get('data', {})), obs, canon(ret), canon(err), alive,
+                    exp['verdict'], exp.get('at'))
+            dk = [kinds[d][0] + ('!' if r else '') for d, r in mon['dlv']]
+            run.beh('W' if window else 'E', kinds[op['blk']][0], obs, dk)
+            if window:
+                run.fired('reach:async_init_window_event')
+                if obs == 'recursion' and mon['refusals']:
+                    run.fired('reach:refused_in_async_init')
+            if mon['nested'] or mon['refusals']:
+                info['nontrivial'] = True
+            # reach
+            note_reach(exp)
+            if obs == 'recursion' and mon['refusals']:
+                run.fired('reach:refused_ext')
+            if obs == 'unknown':
+                run.fired('reach:nested_unknown' if mon['nested'] else 'reach:ext_unknown')
+            if obs == 'param':
+                run.fired('reach:ext_param')
+            if obs == 'abort':
+                run.fired('reach:nested_param_abort' if isinstance(err, TypeError)
+                          and exp.get('nested') else 'reach:handler_error_abort')
+            names = [d for d, r in mon['dlv'] if not r]
+            if len(names) != len(set(names)) and obs == 'ok':
+                run.fired('reach:diamond')
+            if info['failures_survived'] and obs == 'ok':
+                run.fired('reach:second_event_after_failure')
+            # the property itself: these never stop the simulation
+            if obs in ('ok', 'unknown', 'param') and not alive:
+                run.violate('C11/stopped-without-cause',
+                            f"{label}: the event ended with '{obs}' ({canon(err)}) but the "
+                            f"simulation was stopped: {canon(circuit.error)}")
+            if obs == 'recursion' and not mon['refusals']:
+                run.violate('C11/recursion-error-without-refusal',
+                            f"{label}: raised {canon(err)} but no block refused an event")
+            # (b) the model
+            if was_precise:
+                exp_alive = exp['verdict'] in ('ok', 'unknown', 'param')
+                if obs != exp['verdict'] or alive != exp_alive:
+                    run.violate('C11/model/verdict',
+                                f"{label} {canon(op.get('data', {}))}: observed '{obs}' "
+                                f"({canon(err)}), simulation {'running' if alive else 'stopped'}; "
+                                f"the event-flow model expects '{exp['verdict']}' at "
+                                f"{exp.get('at')} {exp.get('what', '')}")
+                    info['precise'] = False
+                elif alive and not model.imprecise:
+                    info['precise'] = compare_outputs(label)
+            if model.imprecise:
+                run.fired('model_imprecise')
+            if not alive:
+                info['stopped_by'] = obs
+                info['window_stop'] = window
+                return False
+            if obs in ('unknown', 'param') or 'filter_veto' in exp['notes'] \
+                    or 'cond_none' in exp['notes']:
+                info['failures_survived'] += 1
+            if window:
+                # the blocks are not all initialised yet: no follow-up events here (they
+                # would initialise every block); they follow after the start-up
+                return True
+            # (c)
+            if not followups(label):
+                return False
+            if info['precise'] and not model.imprecise and circuit.is_ready():
+                info['precise'] = compare_outputs(label + ' after follow-ups')
+            if op.get('yield'):
+                await asyncio.sleep(0)
+            return True
+
+        async def start_up():
+            """Wait for the end of the start-up and compare it with the model."""
             try:
                 exp = model.initialise()
             except RecursionError:
@@ -1013,103 +1150,43 @@ def execute(plan, trace=False):
                 obs = 'fail'
             run.log('init', obs, canon(init_err), exp['verdict'], exp.get('at'), exp.get('why'))
             note_reach(exp)
-            precise = True
+            info['precise'] = True
             if obs != exp['verdict']:
                 run.fired('init_model_mismatch')
-                precise = False
+                info['precise'] = False
             if obs == 'ok':
-                if precise and canon(model.outputs()) != {n: real_state(s, b)
+                if info['precise'] and canon(model.outputs()) != {n: real_state(s, b)
                                                           for n, (s, b) in real.items()}:
                     run.fired('init_model_mismatch')
                 adopt(model, real)
-                precise = True
+                info['precise'] = True
             else:
                 info['stopped_by'] = 'init-' + obs
+
+        async def main():
+            simtask = asyncio.create_task(circuit.run_forever())
+            begin_root()
+            if ainit:
+                # The simulator is waiting for the init_async tasks of the slow blocks: external
+                # events are accepted already and initialise their destinations early.
+                await asyncio.sleep(float(ainit['at']))
+                for n, op in enumerate(plan['ext'][:nwin]):
+                    if info['stopped_by'] is not None or not circuit.is_ready() or simtask.done():
+                        break
+                    if not await do_ext(n, op, True):
+                        break
+                begin_root()
+            if info['stopped_by'] is None:
+                await start_up()
+                if nwin and info['stopped_by'] is None and circuit.is_ready():
+                    followups('after the start-up')
             for n, op in enumerate(plan['ext']):
+                if n < nwin:
+                    continue
                 if info['stopped_by'] is not None or not circuit.is_ready():
                     break
-                label = f"ext#{n} {op['blk']}.{op['ev']}"
-                if op['blk'] not in real or not isinstance(op['ev'], str) or not op['ev']:
-                    raise PlanError('bad external event')
-                blk = real[op['blk']][1]
-                data = fsmlib.real_data(op.get('data', {}))
-                was_precise = precise and not model.imprecise
-                exp = model.external(op['blk'], op['ev'], op.get('data', {}))
-                begin_root()
-                try:
-                    ret = edzed.ExtEvent(blk, op['ev']).send(**data)
-                    err = None
-                except Exception as exc:        # pylint: disable=broad-except
-                    ret, err = None, exc
-                end_root(label)
-                alive = circuit.is_ready()
-                if err is None:
-                    obs = 'ok'
-                elif is_recursion_error(err):
-                    obs = 'recursion'
-                elif isinstance(err, edzed.EdzedUnknownEvent):
-                    obs = 'unknown'
-                elif isinstance(err, TypeError) and alive:
-                    obs = 'param'
-                else:
-                    obs = 'abort'
-                run.log('ext', label, canon(op.get('data', {})), obs, canon(ret), canon(err), alive,
-                        exp['verdict'], exp.get('at'))
-                dk = [kinds[d][0] + ('!' if r else '') for d, r in mon['dlv']]
-                run.beh(kinds[op['blk']][0], obs, dk)
-                if mon['nested'] or mon['refusals']:
-                    info['nontrivial'] = True
-                # reach
-                note_reach(exp)
-                if obs == 'recursion' and mon['refusals']:
-                    run.fired('reach:refused_ext')
-                if obs == 'unknown':
-                    run.fired('reach:nested_unknown' if mon['nested'] else 'reach:ext_unknown')
-                if obs == 'param':
-                    run.fired('reach:ext_param')
-                if obs == 'abort':
-                    run.fired('reach:nested_param_abort' if isinstance(err, TypeError)
-                              and exp.get('nested') else 'reach:handler_error_abort')
-                names = [d for d, r in mon['dlv'] if not r]
-                if len(names) != len(set(names)) and obs == 'ok':
-                    run.fired('reach:diamond')
-                if info['failures_survived'] and obs == 'ok':
-                    run.fired('reach:second_event_after_failure')
-                # the property itself: these never stop the simulation
-                if obs in ('ok', 'unknown', 'param') and not alive:
-                    run.violate('C11/stopped-without-cause',
-                                f"{label}: the event ended with '{obs}' ({canon(err)}) but the "
-                                f"simulation was stopped: {canon(circuit.error)}")
-                if obs == 'recursion' and not mon['refusals']:
-                    run.violate('C11/recursion-error-without-refusal',
-                                f"{label}: raised {canon(err)} but no block refused an event")
-                # (b) the model
-                if was_precise:
-                    exp_alive = exp['verdict'] in ('ok', 'unknown', 'param')
-                    if obs != exp['verdict'] or alive != exp_alive:
-                        run.violate('C11/model/verdict',
-                                    f"{label} {canon(op.get('data', {}))}: observed '{obs}' "
-                                    f"({canon(err)}), simulation {'running' if alive else 'stopped'}; "
-                                    f"the event-flow model expects '{exp['verdict']}' at "
-                                    f"{exp.get('at')} {exp.get('what', '')}")
-                        precise = False
-                    elif alive and not model.imprecise:
-                        precise = compare_outputs(label)
-                if model.imprecise:
-                    run.fired('model_imprecise')
-                if not alive:
-                    info['stopped_by'] = obs
+                if not await do_ext(n, op, False):
                     break
-                if obs in ('unknown', 'param') or 'filter_veto' in exp['notes'] \
-                        or 'cond_none' in exp['notes']:
-                    info['failures_survived'] += 1
-                # (c)
-                if not followups(label):
-                    break
-                if precise and not model.imprecise and circuit.is_ready():
-                    precise = compare_outputs(label + ' after follow-ups')
-                if op.get('yield'):
-                    await asyncio.sleep(0)
             await asyncio.sleep(0)
             if plan.get('tick') and info['stopped_by'] is None and circuit.is_ready():
                 # two repetitions of every repeating Repeat: deliveries whose root is a task.
@@ -1131,6 +1208,20 @@ def execute(plan, trace=False):
                     info['stopped_by'] = 'tick-abort'
                 else:
                     followups('after repeat ticks')
+            if info['stopped_by'] in ('recursion', 'init-recursion'):
+                # "refused with an EdzedCircuitError that stops the simulation": the simulation
+                # task has to END now - a few loop iterations for the clean-up, not the time the
+                # remaining initialisation (or any time-out) takes
+                t_ref = run.now()
+                await asyncio.wait([simtask], timeout=STOP_BOUND)
+                if not simtask.done():
+                    run.violate('C11/refusal-did-not-stop/still-running',
+                                f"a recursive event was refused ({info['stopped_by']}"
+                                f"{', during the asynchronous initialisation' if info['window_stop'] else ''}) "
+                                f"but the simulation task was still running {run.now() - t_ref:.3f} s "
+                                "later")
+                else:
+                    run.fired('reach:stopped_promptly')
             err = None
             try:
                 await circuit.shutdown()
